@@ -71,6 +71,7 @@ class Backend:
         self.api_calls = 0
         self._pending_pages: dict[str, list[dict]] = {}
         self.on_apply = None  # hook(update, op) called after each applied update (world reactions)
+        self.timer_lag = 0.0  # virtual seconds by which the service is late in acting on a due timer (world option "timer_lag")
         ex = {
             "Id": "exec-op-0",
             "Type": "EXECUTION",
@@ -112,7 +113,7 @@ class Backend:
         out = []
         for oid in self.order:
             t = self.timer_of(oid)
-            if t is not None and t <= now:
+            if t is not None and t + self.timer_lag <= now:
                 out.append((t, oid))
         return sorted(out)
 
